@@ -490,7 +490,7 @@ def check_hist(prop, tier, seed, replay=None):
         if not hashes:
             rep.harness("no run")
         nskip = classes.get("SKIPPED", 0)
-        if nskip > len(hashes) // 10:
+        if nskip > len(hashes) // 50:
             rep.harness("generator produced %d invalid programs out of %d" % (nskip, len(hashes)))
         stuck = sorted(k for k, v in probes.items() if v == 0 and k not in ("header_pool_grew", "storage_kept_by_the_library_until_finalisation"))
         if tier == "thorough" and stuck:
@@ -839,7 +839,7 @@ def check_C15(tier, seed, replay=None):
             rep.harness("control (default, non-thread-safe build driven by several threads): %d of %d control runs not flagged, %d conflicts reported in all: %s" % (len(ctl_unflagged), ctl_runs, ctl_flagged, ctl_unflagged[:1]))
         if not hashes:
             rep.harness("no run")
-        if classes.get("SKIPPED", 0) > len(hashes) // 10:
+        if classes.get("SKIPPED", 0) > len(hashes) // 50:
             rep.harness("generator produced %d invalid programs" % classes["SKIPPED"])
 
         def sig(v, s):
